@@ -601,7 +601,9 @@ async fn main() {
         let case = descs.len();
         let mut hrng = rng.fork();
         let gp = [3u64, 4, 5, 8][h % 4];
-        let r = futures_catch(AssertUnwindSafe(fork_history_atr(&mut hrng, gp, case))).await;
+        // every other fork is 3 blocks deep on a node that drops transactions from memory after 2 blocks
+        let (pab, extra) = if h % 2 == 1 { (2u64, 2usize) } else { (8u64, 0usize) };
+        let r = futures_catch(AssertUnwindSafe(fork_history_atr_deep(&mut hrng, gp, pab, extra, case))).await;
         match r {
             Ok((sim, desc, fails, delivery)) => {
                 for f in &fails {
@@ -610,7 +612,7 @@ async fn main() {
                 summary.count("fork_delivery", &delivery);
                 coq_cases.push(sim.history_literal());
                 descs.push(desc);
-                keys.push(format!("fork:gp{}", gp));
+                keys.push(format!("fork:gp{}:depth{}", gp, 1 + extra));
             }
             Err(msg) => {
                 let desc = format!("{{\"case\":{},\"kind\":\"fork\",\"genesis_period\":{}}}", case, gp);
